@@ -1,8 +1,117 @@
-(* C08 — run()/stop(): started once, everything queued is drained, stopped once. Statements only. *)
+(* C08 — run()/stop(): started once, everything queued is drained, stopped once, exit code propagates.
+   Only statements here; the model is Model/KLoop.v, the proofs are in Proofs/KLoopP.v.
+
+   All theorems are about [run P d fuel s0 = Some (s1, out)]: run() entered in state s0 returns in state s1
+   and hands [out] to its caller (Some c: raises SystemExit(c); None: returns normally).  They hold
+     for every program P       (evk -> list body: plain and generator handlers of started / stopped /
+                                exception / user events that fire events, call stop(code) themselves or from a
+                                joined second thread, raise SystemExit(code) / KeyboardInterrupt / errors),
+     for every idle start state s0  (not running, empty queue; ANY leftover tasks, ANY task-set iteration
+                                schedule [sched s0], ANY script of second-thread actions [ext s0], any
+                                earlier trace: so they hold for the n-th run of a manager as for the first),
+     for every fuel and nesting depth on which run returns (None = the loop did not finish within fuel).
+   [delta] is the part of the trace produced by this run(); firedK / dispK / reqs are its projections on
+   queued events, dispatched events and stop requests (chronological). *)
 From Coq Require Import List ZArith Bool.
 From Circ Require Import Model.KLoop Proofs.KLoopP.
 Import ListNotations.
 
+(* `started` is dispatched exactly once per run() *)
+Theorem C08_started_once : forall P d fuel s0 s1 out, idle s0 -> run P d fuel s0 = Some (s1, out) ->
+  exists delta, trace s1 = trace s0 ++ delta /\ cnt KStarted (dispK delta) = 1.
+Proof. exact started_once. Qed.
+Print Assumptions C08_started_once.
+
+(* `stopped` is dispatched exactly once per run(), wherever and however often stop was requested *)
+Theorem C08_stopped_once : forall P d fuel s0 s1 out, idle s0 -> run P d fuel s0 = Some (s1, out) ->
+  exists delta, trace s1 = trace s0 ++ delta /\ cnt KStopped (dispK delta) = 1.
+Proof. exact stopped_once. Qed.
+Print Assumptions C08_stopped_once.
+
+(* run() returns with an empty queue, and the sequence of events dispatched during the run IS the sequence
+   of events queued during the run (started, stopped, generate_events, exception and user events alike) *)
+Theorem C08_drained : forall P d fuel s0 s1 out, idle s0 -> run P d fuel s0 = Some (s1, out) ->
+  fifo s1 = [] /\ heap s1 = [] /\ batch s1 = 0 /\
+  exists delta, trace s1 = trace s0 ++ delta /\ dispK delta = firedK delta.
+Proof. exact drained. Qed.
+Print Assumptions C08_drained.
+
+(* run() does not return unless a stop was requested, and what it hands to its caller is the code of the
+   FIRST request of this run (stop(code), SystemExit(code) raised in a handler or a generator step,
+   KeyboardInterrupt = None, from the loop's thread or the second thread) *)
+Theorem C08_exit_code : forall P d fuel s0 s1 out, idle s0 -> run P d fuel s0 = Some (s1, out) ->
+  exists delta r, trace s1 = trace s0 ++ delta /\ reqs delta = out :: r.
+Proof. exact exit_code. Qed.
+Print Assumptions C08_exit_code.
+
+(* stop() on a manager that is not running is the identity and does not raise (any code, any ticker) *)
 Theorem C08_idle_stop : forall (tk : st -> st) c s, running s = false -> stop tk c s = (s, false).
 Proof. exact idle_stop. Qed.
 Print Assumptions C08_idle_stop.
+
+(* a manager that has stopped is idle again: every theorem above applies to its next run() *)
+Theorem C08_rerun : forall P d fuel s0 s1 out, idle s0 -> run P d fuel s0 = Some (s1, out) -> idle s1.
+Proof. exact rerun. Qed.
+Print Assumptions C08_rerun.
+
+(* all of it at once (the lemma the others are projections of) *)
+Theorem C08_run_spec : forall P d fuel s0 s1 out, idle s0 -> run P d fuel s0 = Some (s1, out) ->
+  exists delta, trace s1 = trace s0 ++ delta /\
+    firedK delta = dispK delta /\
+    cnt KStarted (firedK delta) = 1 /\ cnt KStopped (firedK delta) = 1 /\
+    (exists r, reqs delta = out :: r) /\
+    idle s1.
+Proof. exact run_spec. Qed.
+Print Assumptions C08_run_spec.
+
+(* ---- non-vacuity: concrete programs on which run returns *)
+(* the three witnesses of the defects repaired by fixes/C08_1..3 *)
+Definition ex_exit7 : prog := prog_of [(KStarted, [BPlain [] (RExit (Some 7%Z))])].
+Definition ex_stop3 : prog := prog_of [(KStarted, [BPlain [AStop false (Some 3%Z)] RRet])].
+Definition ex_gen : prog := prog_of
+  [(KStarted, [BPlain [AFire false 0] RRet]);
+   (KUser 0, [BGen [([AStop false None], RYield); ([AFire false 1], RYield); ([AFire false 1], RYield);
+                    ([AFire false 1], RYield); ([AFire false 1], RYield); ([AFire false 1], RYield)]]);
+   (KUser 1, [BPlain [AFire false 2] RRet])].
+
+Example C08_ex_idle : idle (init [] []).
+Proof. repeat split. Qed.
+
+Example C08_ex_exit7 :
+  option_map (fun r => (dispK (trace (fst r)), snd r)) (run ex_exit7 3 50 (init [] []))
+  = Some ([KStarted; KGE; KStopped], Some 7%Z).
+Proof. vm_compute. reflexivity. Qed.
+
+Example C08_ex_stop3 :
+  option_map (fun r => (dispK (trace (fst r)), snd r)) (run ex_stop3 3 50 (init [] []))
+  = Some ([KStarted; KGE; KStopped], Some 3%Z).
+Proof. vm_compute. reflexivity. Qed.
+
+(* the generator keeps firing during the fade-out ticks; the last e2 is dispatched by the final drain;
+   the second run() continues the leftover generator and still gives every guarantee *)
+Definition two_runs (P : prog) (s : st) : option (st * option Z * st * option Z) :=
+  match run P 3 50 s with
+  | Some (s1, o1) => match run P 3 50 s1 with Some (s2, o2) => Some (s1, o1, s2, o2) | None => None end
+  | None => None
+  end.
+
+Example C08_ex_gen_two_runs :
+  option_map (fun '(s1, o1, s2, o2) =>
+                (qlen s1, length (tasks s1), o1, qlen s2, length (tasks s2), o2, cnt KStopped (dispK (trace s2))))
+             (two_runs ex_gen (init [] []))
+  = Some (0, 1, None, 0, 1, None, 2).
+Proof. vm_compute. reflexivity. Qed.
+
+Example C08_ex_gen_two_runs_all_dispatched :
+  match two_runs ex_gen (init [] []) with
+  | Some (_, _, s2, _) => dispK (trace s2) = firedK (trace s2) /\ length (dispK (trace s2)) = 28
+  | None => False
+  end.
+Proof. vm_compute. split; reflexivity. Qed.
+
+(* a stop from the second thread while the loop idles, with an exit code *)
+Example C08_ex_ext_stop :
+  option_map (fun r => (dispK (trace (fst r)), reqs (trace (fst r)), snd r))
+             (run (prog_of []) 3 50 (init [] [XFire 4; XStop (Some 5%Z)]))
+  = Some ([KStarted; KGE; KUser 4; KGE; KStopped], [Some 5%Z], Some 5%Z).
+Proof. vm_compute. reflexivity. Qed.
